@@ -18,7 +18,7 @@ From ONL Require Import Elem.Packet Elem.StoreQ
   Elem.DRR Elem.DRRInv Elem.DRRProofs Elem.TwoRate Elem.TwoRateProofs Elem.Red
   Elem.Wire Elem.Port Elem.PortProofs Elem.Bucket Elem.BucketProofs Elem.SchedBase Elem.SchedBaseProofs Elem.SP
   Route.Demux Route.DemuxProofs Elem.Network Elem.Iface Elem.Compose Elem.ComposePar Elem.ComposeHands Elem.AdaptWire Elem.AdaptPort Elem.AdaptBucket Elem.AdaptSched
-  Elem.AdaptSrv Elem.AdaptDRR Elem.AdaptTwoRate Elem.AdaptRed Elem.AdaptTagged Elem.ComposeFan Elem.ComposeExample.
+  Elem.AdaptSrv Elem.AdaptDRR Elem.AdaptTwoRate Elem.AdaptRed Elem.AdaptTagged Elem.ComposeFan Elem.ComposeNet Elem.ComposeExample.
 Import ListNotations.
 Local Open Scope Q_scope.
 
@@ -227,6 +227,30 @@ Theorem C08_pipe_network_instance : forall (A B : elem), conserves A -> conserve
 Proof. exact compose_network. Qed.
 Print Assumptions C08_pipe_network_instance.
 
+(* ... and for linear pipelines of ANY length: the stage-by-stage views of an execution (what each stage was given, forwarded,
+   dropped, holds: pviews) form a wiring "node i sends what it forwards to node i+1" that satisfies the three hypotheses of
+   C08_network_conserves, for every execution of every finite pipeline of conserving elements; the conclusion is the
+   end-to-end equation with the drops and the held packets of all stages summed *)
+Theorem C08_pipe_pipeline_network : forall (es : list elem) (E : elem), conserves E -> Forall conserves es -> forall acts s tr,
+  run (pipeline E es) (init (pipeline E es)) acts = Some (s, tr) ->
+  exists vs, pviews es E acts = Some vs /\ length vs = S (length es) /\
+    let n := length vs in
+    ((forall i u, i < n -> cnt u (c_inp vs i) = cnt u (c_fwd vs i) + cnt u (c_drp vs i) + cnt u (c_held vs i)) /\
+     (forall i u, i < n -> cnt u (c_fwd vs i) = sum_n n (fun j => cnt u (c_sent vs i j)) + cnt u (c_tosink vs i)) /\
+     (forall j u, j < n -> cnt u (c_inp vs j) = cnt u (c_inj vs j) + sum_n n (fun i => cnt u (c_sent vs i j))) /\
+     (forall u, cnt u (uids (puts tr)) =
+                cnt u (uids (fwds tr)) + sum_n n (fun i => cnt u (c_drp vs i)) + sum_n n (fun i => cnt u (c_held vs i))))%nat.
+Proof. exact pipeline_network. Qed.
+Print Assumptions C08_pipe_pipeline_network.
+
+(* the views are what the stages' own executions say, they are chained, and each satisfies its element's conservation law *)
+Theorem C08_pipe_pipeline_views : forall (es : list elem) (E : elem), conserves E -> Forall conserves es -> forall acts s tr,
+  run (pipeline E es) (init (pipeline E es)) acts = Some (s, tr) ->
+  exists vs, pviews es E acts = Some vs /\ length vs = S (length es) /\ Forall v_ok vs /\ chained vs /\
+             v_puts (nthv vs 0) = puts tr /\ v_fwds (nthv vs (length es)) = fwds tr.
+Proof. exact pipeline_views. Qed.
+Print Assumptions C08_pipe_pipeline_views.
+
 (* ================= the adapters: the interface elements ARE the existing models ================= *)
 Theorem C08_pipe_wire_adapter_exact : forall loss t0 w w',
   (forall acts tr, wire_run loss w acts = Some (w', tr) -> run (wire_elem loss t0) w (map w_of acts) = Some (w', map w_ev tr)) /\
@@ -415,3 +439,12 @@ Example C08_pipe_example_fanout :
     held ex4_net s = [] /\ urgent ex4_net s = false /\ deadline ex4_net s = None.
 Proof. exact ex4_fanout_run. Qed.
 Print Assumptions C08_pipe_example_fanout.
+
+(* the stage-by-stage views of the three-stage example *)
+Example C08_pipe_example_views :
+  pviews [wire_elem None 0; tb_elem ex_tb 0] (port_elem ex_port 0) ex_acts =
+  Some [ {| v_puts := [xp 0; xp 1; xp 2]; v_fwds := [xp 0; xp 1]; v_drops := [xp 2]; v_held := [] |};
+         {| v_puts := [xp 0; xp 1]; v_fwds := [xp 0; xp 1]; v_drops := []; v_held := [] |};
+         {| v_puts := [xp 0; xp 1]; v_fwds := [xp 0; xp 1]; v_drops := []; v_held := [] |} ].
+Proof. exact ex_pipe_views. Qed.
+Print Assumptions C08_pipe_example_views.
